@@ -67,6 +67,7 @@ Proof. exact full_array. Qed.
 Print Assumptions Compose_array_equation.
 Theorem Compose_elem_not_array : forall k e, lookup k arrayElemTypes = Some e -> lookup e arrayElemTypes = None.
 Proof. exact elem_not_array. Qed.
+Print Assumptions Compose_elem_not_array.
 (* C04 and C07 model the same Go tables *)
 Theorem Compose_tables_same : forall k,
   PG.C07.Model.lookup k PG.C07.Model.arrayElemTypes = lookup k arrayElemTypes /\
